@@ -80,11 +80,11 @@ impl KeySet {
     #[verifier::external_body]
     pub fn contains(&self, k: &VerificationKeyForConcatenation) -> (r: bool) ensures r == keys(self).contains(*k) { unimplemented!() }
     #[verifier::external_body]
-    pub fn insert(&mut self, k: VerificationKeyForConcatenation) -> (r: bool) ensures keys(final(self)) == keys(old(self)).insert(k) { unimplemented!() }
+    pub fn insert(&mut self, k: VerificationKeyForConcatenation) -> (r: bool) ensures keys(final(self)) == keys(old(self)).insert(k), r == !keys(old(self)).contains(k) { unimplemented!() }
 }
 impl EntrySet {
     #[verifier::external_body]
-    pub fn insert(&mut self, e: RegistrationEntry) -> (r: bool) ensures entries(final(self)) == entries(old(self)).insert(e) { unimplemented!() }
+    pub fn insert(&mut self, e: RegistrationEntry) -> (r: bool) ensures entries(final(self)) == entries(old(self)).insert(e), r == !entries(old(self)).contains(e) { unimplemented!() }
 }
 
 pub struct KeyRegistration {
